@@ -164,6 +164,10 @@ class NMEA2000Decoder():
 
             # All data for this PGN has been received, proceed to publish
             combined_payload = bytes([b for idx in sorted(fast_pgn.frames) for b in fast_pgn.frames[idx][::-1]])[::-1]
+            # CAN frames are padded to 8 bytes: keep only the announced payload length
+            # (the payload is reversed here, so the padding bytes are at the front)
+            if len(combined_payload) > fast_pgn.payload_length:
+                combined_payload = combined_payload[len(combined_payload) - fast_pgn.payload_length:]
             
             nmea = None
             if combined_payload is not None:
